@@ -77,16 +77,19 @@ func (f c17Family) base() bool { return f.Format == "" && !f.Stop }
 type c17Bounds struct {
 	ShortLen         int `json:"all_splits_up_to_runes"`
 	MaxCuts          int `json:"max_cuts_long_outputs"`
-	MaxCutsShortTool int `json:"max_cuts_tool_outputs_up_to_34_runes_in_chat_tools_family"`
+	MaxCutsDeep      int `json:"max_cuts_deep_outputs_in_chat_tools_family"`
 	MaxCutsPass      int `json:"max_cuts_long_outputs_where_text_is_opaque_or_format_stop_set"`
 	MaxCutsPassShort int `json:"max_cuts_short_outputs_in_format_stop_families"`
 }
 
+// outputs enumerated one cut deeper in the chat+tools family (thorough tier)
+var c17DeepOutputs = map[string]bool{"tool-call-length": true, "tool-call-then-text": true}
+
 func c17GetBounds() c17Bounds {
 	if evid.Thorough() {
-		return c17Bounds{ShortLen: 10, MaxCuts: 3, MaxCutsShortTool: 4, MaxCutsPass: 2, MaxCutsPassShort: 10}
+		return c17Bounds{ShortLen: 10, MaxCuts: 3, MaxCutsDeep: 4, MaxCutsPass: 2, MaxCutsPassShort: 10}
 	}
-	return c17Bounds{ShortLen: 10, MaxCuts: 2, MaxCutsShortTool: 2, MaxCutsPass: 1, MaxCutsPassShort: 2}
+	return c17Bounds{ShortLen: 10, MaxCuts: 2, MaxCutsDeep: 2, MaxCutsPass: 1, MaxCutsPassShort: 2}
 }
 
 // maxDepth: largest number of cuts (complete scripts) / delivered chunks (failing scripts)
@@ -94,7 +97,7 @@ func c17GetBounds() c17Bounds {
 //	base families (no format, no stop):
 //	  outputs of <= ShortLen runes: every chunking
 //	  longer outputs: <= MaxCuts cuts in the chat+tools family (the only one whose handler looks into the text;
-//	  <= MaxCutsShortTool for the tool-call outputs of <= 34 runes) and for the output "tool-call" in the others;
+//	  <= MaxCutsDeep for the outputs named in c17DeepOutputs) and for the output "tool-call" in the others;
 //	  <= MaxCutsPass cuts for the remaining longer outputs in families where the text is opaque
 //	pass-through families (format and/or stop set): <= MaxCutsPass cuts (<= MaxCutsPassShort for short outputs)
 func (b c17Bounds) maxDepth(f c17Family, o c17Output, fail bool) int {
@@ -112,8 +115,8 @@ func (b c17Bounds) maxDepth(f c17Family, o c17Output, fail bool) int {
 		d = full
 	case L <= b.ShortLen:
 		d = b.MaxCutsPassShort
-	case f.base() && f.Tools && L <= 34:
-		d = b.MaxCutsShortTool
+	case f.base() && f.Tools && c17DeepOutputs[o.Name]:
+		d = b.MaxCutsDeep
 	case f.base() && (f.Tools || o.Name == "tool-call"):
 		d = b.MaxCuts
 	default:
@@ -674,7 +677,7 @@ func ZZVerifC17() {
 	r.Rule("case = (request family, model output, runner script); family = generate{raw} / chat{tools} x format{-,json} x stop{-,set} (16 families); " +
 		"runner script = a chunking of the output at rune boundaries x final Done callback with/without content, or a failing script (k chunks covering a prefix are delivered, then Completion returns an error; every choice of the k boundaries). " +
 		"Depth: in the 4 families without format/stop every chunking (all 2^(L-1)) and every failing script of outputs of <= 10 runes; for longer outputs every chunking / failing script with <= D cuts / delivered chunks, " +
-		"D = bounds.max_cuts_long_outputs in the chat+tools family (the only handler that looks into the text; bounds.max_cuts_tool_outputs_up_to_34_runes... for its outputs of <= 34 runes) and for the output 'tool-call' in the other three, D = bounds.max_cuts_long_outputs_where_text_is_opaque... for the remaining long outputs there; " +
+		"D = bounds.max_cuts_long_outputs in the chat+tools family (the only handler that looks into the text; bounds.max_cuts_deep_outputs_in_chat_tools_family for the outputs tool-call-length and tool-call-then-text) and for the output 'tool-call' in the other three, D = bounds.max_cuts_long_outputs_where_text_is_opaque... for the remaining long outputs there; " +
 		"in the 12 families with format and/or stop (pass-through dimensions) <= bounds.max_cuts_long_outputs_where_text_is_opaque... cuts for long and <= bounds.max_cuts_short_outputs_in_format_stop_families cuts for short outputs. " +
 		"Every case is sent as native non-stream, native stream (raw NDJSON), api.Client non-stream, api.Client stream (stream field omitted), and where the endpoint exists (/v1/completions has neither raw nor format) as OpenAI non-stream, stream, stream+include_usage, through the real gin router, scheduler and handlers; evaluations counts these HTTP requests, runner_scripts the cases. " +
 		"Non-trivial = the runner made >= 2 callbacks (the output was really split, or something was delivered before the failure); distinct_nontrivial counts the distinct non-trivial cases (each of them is executed in 4 or 7 variants).")
